@@ -26,7 +26,7 @@ ASSUMPTIONS = [
 
 @st.composite
 def cases(draw, tier):
-    c = draw(gen.kernel_cases(max_leaves=4 if tier == "quick" else 5, sparse_output_bias=True, min_target=1,
+    c = draw(gen.kernel_cases(max_leaves=draw(st.sampled_from([2, 3, 3, 4] if tier == "quick" else [2, 3, 3, 4, 5])), sparse_output_bias=True, min_target=1,
                               value_class="exact", density_choices=(0, 1, 2, 2, 3, 3, 3, 3, 4), literal_rate=5, p_sparse_in=8,
                               min_dim=2, order_choices=(1, 1, 2, 2, 2, 3)))
     c["capacity"] = 2
@@ -84,6 +84,6 @@ def run(chk):
 
 def health(cov):
     p = []
-    if cov["classes"].get("kernel_ok", 0) and cov["distinct_nontrivial"] < 0.15 * cov["classes"]["kernel_ok"]:
-        p.append("fewer than 15% of executed cases have a support set that is neither empty nor full")
+    if cov["classes"].get("kernel_ok", 0) and cov["distinct_nontrivial"] < 0.08 * cov["classes"]["kernel_ok"]:
+        p.append("fewer than 8% of executed cases have a support set that is neither empty nor full")
     return p
